@@ -1639,9 +1639,18 @@ class JSONVisitor:
             target = "/index"
             node["target"] = target
 
-        resolved_target_path = util.add_doc_target_ext(
-            target, self.docpath, self.project_config.source_path
-        )
+        try:
+            resolved_target_path = util.add_doc_target_ext(
+                target, self.docpath, self.project_config.source_path
+            )
+        except ValueError:
+            # An empty target (":doc:`<>`" or ":doc:`.`") has no file name to extend
+            self.diagnostics.append(
+                CannotOpenFile(
+                    Path(target), os.strerror(errno.ENOENT), node.get_line()
+                )
+            )
+            return target
 
         if not self.is_file_dependency(resolved_target_path):
             self.diagnostics.append(
